@@ -3,7 +3,7 @@ import copy
 import math
 import random
 
-from harness import core, tlc, tracecheck
+from harness import apalache, core, tlc, tracecheck
 
 PID = "C11"
 
@@ -54,6 +54,15 @@ def run(tier, seed):
         raise tlc.TLCError("negative control WrapBug was not refuted by TLC")
     ctx.add_tlc("negative control WrapBug refuted (WindowIsLastK)", rn, kind="negative_control")
 
+    # streams of ANY length (window length <= 6): the ring-buffer invariant is inductive (Apalache), on a step that TLC
+    # shows to be Trackers!SWUpd
+    for cfg in (("k3",) if quick else ("k1", "k3", "k4")) + ("bug",):
+        rr = tlc.require_ok(tlc.run("MC_SWIndTLC", "MC_SWIndTLC_" + cfg, tag="c11ind"), cfg)
+        if rr.status != "ok":
+            raise tlc.TLCError("SWInd(%s) violates %s" % (cfg, rr.violated))
+        ctx.add_tlc("MC_SWIndTLC_%s: StepIsTrackers%s" % (cfg, "" if cfg == "bug" else " IndInv WindowIsLastK"), rr)
+    apalache.inductive(ctx, "MC_SWInd", "CInitOK", "IndInit", "IndInv", "WindowIsLastK", "ring buffer, K in 1..6",
+                       negative_cinit="CInitBug")
     # direction A: every (k, n) of the specification driven through the real class
     by = {}
     for st in states:
